@@ -11,6 +11,7 @@ THEOREMS = ["OQuPyVerif.Props.C04.trace_preserved", "OQuPyVerif.Props.C04.hermit
             # positivity in the Kraus sector (Props/C04Pos.lean)
             "OQuPyVerif.Props.C04.kraus_step_physical", "OQuPyVerif.Props.C04.kraus_steps_physical",
             "OQuPyVerif.Props.C04.kraus_prefix_physical", "OQuPyVerif.Props.C04.gram_is_physical",
+            "OQuPyVerif.Props.C04.ancilla_states_physical",
             # PT-TEBD norm and reduced-state traces (C10) and the Gibbs state (C11)
             "OQuPyVerif.Props.C10.norm_step", "OQuPyVerif.Props.C10.norm_one",
             "OQuPyVerif.Props.C10.site_dissipator_trace_annihilating",
@@ -302,6 +303,72 @@ def kraus_tie(res, tier, rng):
                          "(residual² %g) although every step is a Kraus step" % worst["gram"], desc)
 
 
+def ancilla_tie(res):
+    """tie of `ancilla_states_physical`: for hand-built process tensors of an explicit ancilla the joint
+    steps (system half-propagator x 1, joint channel, half-propagator) are shipped as vectorised
+    superoperators with their Kraus operators; Lean evaluates `IsKrausStep` on each (dimension E*d),
+    runs the model `runVec` on the joint state, and the partial trace of the model states is compared
+    with what compute_dynamics reports for the process tensor (every step)"""
+    import oqupy
+    from scipy.linalg import expm
+    from . import run_C03
+    lines, meta = [], []
+    for variant, seed_ in (("rank4", 7), ("rank3", 9)):
+        n = 2
+        case = run_C03.ancilla_case(random.Random(seed_), variant, "simple", n=n, e=2)
+        if isinstance(case["ham"], dict):
+            continue
+        e, d = case["e"], case["d"]
+        D = e * d
+        pt = run_C03.build_pt(case["spec"], d, n, "simple")
+        real = run_C03.run_real(oqupy.System(case["ham"]), case["rho0"], [pt], n, None)
+        iu = np.kron(np.eye(e), expm(-0.5j * run_C03.DT * np.asarray(case["ham"])))
+        plist, klist = [], []
+        for k in range(n):
+            for ks in ([iu], list(case["kraus"][k]), [iu]):
+                ks = [np.asarray(w, dtype=complex) for w in ks]
+                plist.append(sum(np.kron(w, w.conj()) for w in ks))
+                klist.append(ks)
+        for P, ks in zip(plist, klist):
+            lines.append("kraus %d %d | %s | %s" % (D, len(ks), " ".join(fw.crat(z) for z in P.reshape(-1)),
+                                                     " ".join(fw.crat(z) for w in ks for z in w.reshape(-1))))
+        joint0 = np.kron(case["rhoE"], case["rho0"])
+        lines.append("run %d %d | %s | %s" % (D, len(plist), " ".join(fw.crat(z) for z in joint0.reshape(-1)),
+                                              " | ".join(" ".join(fw.crat(z) for z in P.reshape(-1)) for P in plist)))
+        meta.append((variant, e, d, len(plist), real))
+        res.count("ancilla-tie:%s" % variant)
+    if not lines:
+        return
+    out = fw.run_driver("C04Pos", lines)
+    pos = 0
+    for variant, e, d, npl, real in meta:
+        desc = {"sector": "ancilla", "variant": variant, "e": e, "d": d}
+        worst = {"kraus": 0.0, "unit": 0.0}
+        for _ in range(npl):
+            toks = out[pos].split(); pos += 1
+            if len(toks) != 4:
+                res.disagree("driver C04Pos rejected an ancilla kraus line (%s)" % out[pos - 1][:80], desc)
+                continue
+            worst["kraus"] = max(worst["kraus"], float(fw.parse_rat(toks[1])))
+            worst["unit"] = max(worst["unit"], float(fw.parse_rat(toks[3])))
+        states = [np.array([complex(*[float(fw.parse_rat(x)) for x in tok.split(",")]) for tok in part.split()])
+                  for part in out[pos].split(" ; ")]
+        pos += 1
+        err = 0.0
+        for k in range(1, len(real)):
+            joint = states[3 * k - 1].reshape(e, d, e, d)
+            red = np.einsum("axay->xy", joint).reshape(-1)
+            err = max(err, float(np.abs(red - real[k]).max()))
+        res.case("ancilla-tie:" + variant, True, {"case": desc, "compute_dynamics_vs_ptrace_of_runVec": err,
+                                                  "hypothesis_residuals_sq": worst})
+        if err > TOL:
+            res.disagree("compute_dynamics with an ancilla-built process tensor differs from the partial "
+                         "trace of the joint model evolution by %g" % err, desc)
+        if worst["kraus"] > HYP_TOL or worst["unit"] > HYP_TOL:
+            res.disagree("a joint step of the ancilla evolution does not meet `IsKrausStep` "
+                         "(residuals² %r)" % worst, desc)
+
+
 def kraus_search(res):
     """oracle from the property text in the no-bath sector: every reported state is PSD, trace one"""
     import oqupy
@@ -397,6 +464,7 @@ def run(tier, seed, replay):
     try:
         correspondence(res, tier, rng)
         kraus_tie(res, tier, random.Random(seed + 4))
+        ancilla_tie(res)
         physical_paths(res)
         # the PT-TEBD and Gibbs parts of the property: their models, the hypotheses of the norm /
         # Hermiticity theorems on the real tensors, and the real results (harnesses of C10 / C11)
